@@ -622,7 +622,7 @@ class _SetOperation(Selectable, Term):  # type:ignore[misc]
 
         # The operands and clauses must not depend on where the set operation is embedded
         subquery, with_alias = ctx.subquery, ctx.with_alias
-        ctx = ctx.copy(subquery=False, with_alias=False, subcriterion=False)
+        ctx = ctx.copy(subquery=False, with_alias=False, subcriterion=False, with_namespace=False)
         set_ctx = ctx.copy(subquery=self.base_query.wrap_set_operation_queries)
         base_querystring = self.base_query.get_sql(set_ctx)
 
